@@ -77,6 +77,8 @@ func VerifC01RollbackMinedTx() {
 		rt.Reach("end")
 		return
 	}
+	// the paid address is recorded as used from this block on (C12: used flag)
+	rt.Assert(len(s.a.Ents) == 1 && readAddressHeight(s.a.Ents[0].V) == a.block.Height, "paid-address-marked-used-at-the-block-height")
 	err = mwdb.Update(s.db, func(dbtx mwdb.DBTransaction) error { return s.tx.Rollback(dbtx, a.block.Height) })
 	rt.Assert(err == nil, "rollback-succeeds")
 	if err != nil {
@@ -103,6 +105,7 @@ func VerifC01RollbackMinedTx() {
 		}
 		rt.Assert(got == a.balBefore, "balance-restored")
 	}
+	rt.Assert(len(s.a.Ents) == 0, "address-no-longer-used-once-its-first-payment-is-gone")
 	// records of the disconnected block are gone
 	_, tv := existsTxRecord(s.t, &a.rec.Hash, a.block)
 	rt.Assert(tv == nil && len(s.b.Ents) == 0, "block-and-transaction-records-removed")
